@@ -45,8 +45,8 @@ Lemma grid_at_nil tr dx dy : grid_at tr [] dx dy = None.
 Proof. unfold grid_at. destruct (dy <? 0); [reflexivity|]. destruct (Z.to_nat dy); reflexivity. Qed.
 
 Section Grid.
-  Variables (S : Type) (inv : S -> Prop) (rd : S -> Z -> Z -> Z) (step : Z -> S -> Z * Z -> S).
-  Variables (W H fx fy : Z) (tr : Z -> bool) (okv : Z -> Prop).
+  Variable (S : Type) (inv : S -> Prop) (rd : S -> Z -> Z -> Z) (step : Z -> S -> Z * Z -> S).
+  Variable (W H fx fy : Z) (tr : Z -> bool) (okv : Z -> Prop).
   (* one element of the block, stored at index k of row y: lands on cell (fx + k, fy + y)
      unless transparent; a cell outside W x H is never equal to an in-range (X, Y) *)
   Hypothesis step_rd : forall y s k v, inv s -> 0 <= k -> 0 <= y -> okv v ->
